@@ -59,6 +59,15 @@ pub async fn open(v: &Value, dir: &Path) -> Database {
     }
 }
 
+/// atomic mode: let the background tasks that just became runnable start, then wait for the
+/// compaction they may be running
+async fn settle(db: &Database) {
+    for _ in 0..4 {
+        tokio::task::yield_now().await;
+    }
+    db.verif_quiesce().await;
+}
+
 pub fn run(v: &Value) -> Value {
     let dir = tempfile::tempdir().unwrap();
     let path = dir.path().join("db");
@@ -69,8 +78,37 @@ pub fn run(v: &Value) -> Value {
         .unwrap();
     rt.block_on(async {
         let mut outs = vec![];
+        // "atomic": true keeps the (paused) clock from auto-advancing while a statement waits for
+        // file I/O, so that the background compactor / vacuum only run inside `sleep_ms` steps
+        // (and once when the database is opened): a task that keeps the runtime busy.
+        let atomic = v["atomic"].as_bool() == Some(true);
+        let busy = std::sync::Arc::new(std::sync::atomic::AtomicBool::new(atomic));
+        let wake = std::sync::Arc::new(tokio::sync::Notify::new());
+        if atomic {
+            let (busy, wake) = (busy.clone(), wake.clone());
+            tokio::spawn(async move {
+                loop {
+                    if busy.load(std::sync::atomic::Ordering::SeqCst) {
+                        tokio::task::yield_now().await;
+                    } else {
+                        wake.notified().await;
+                    }
+                }
+            });
+        }
         let mut db = Some(open(v, &path).await);
+        if atomic {
+            settle(db.as_ref().unwrap()).await;
+        }
         for step in v["steps"].as_array().unwrap() {
+            if atomic {
+                // (shutdown waits for the background tasks, which only notice it when their timer fires)
+                let sleeping = step.get("sleep_ms").is_some()
+                    || step.get("reopen").is_some()
+                    || step.get("shutdown").is_some();
+                busy.store(!sleeping, std::sync::atomic::Ordering::SeqCst);
+                wake.notify_one();
+            }
             if let Some(sql) = step["sql"].as_str() {
                 let Some(dbr) = db.as_ref() else {
                     outs.push(json!({"err": "database is closed"}));
@@ -88,9 +126,14 @@ pub fn run(v: &Value) -> Value {
                 let d = db.take().unwrap();
                 let r = d.shutdown().await;
                 drop(d);
+                busy.store(atomic, std::sync::atomic::Ordering::SeqCst);
+                wake.notify_one();
                 let fut = std::panic::AssertUnwindSafe(open(v, &path));
                 match futures::FutureExt::catch_unwind(fut).await {
                     Ok(d) => {
+                        if atomic {
+                            settle(&d).await;
+                        }
                         db = Some(d);
                         outs.push(json!({"reopened": r.is_ok()}));
                     }
@@ -177,11 +220,44 @@ pub fn run(v: &Value) -> Value {
                 outs.push(json!({"truncated": n, "was": data.len()}));
             } else if let Some(ms) = step["sleep_ms"].as_u64() {
                 tokio::time::sleep(std::time::Duration::from_millis(ms)).await;
+                if atomic {
+                    busy.store(true, std::sync::atomic::Ordering::SeqCst);
+                    wake.notify_one();
+                    if let Some(d) = db.as_ref() {
+                        settle(d).await;
+                    }
+                }
                 outs.push(json!({"slept": ms}));
+            } else if let Some(t) = step["layout"].as_str() {
+                // physical state of a disk table: live row-sets, their stored rows, their DVs
+                let Some(dbr) = db.as_ref() else {
+                    outs.push(json!({"err": "database is closed"}));
+                    continue;
+                };
+                match dbr.verif_layout(t).await {
+                    Ok(Some(l)) => {
+                        let rs: Vec<Value> = l
+                            .iter()
+                            .map(|r| {
+                                let mut rows = vec![];
+                                for dc in &r.rows {
+                                    for row in dc.rows() {
+                                        rows.push(Value::Array(row.values().map(|v| val_to_json(&v)).collect()));
+                                    }
+                                }
+                                json!({"id": r.rowset_id, "rows": rows, "dvs": r.dvs.iter().map(|(i, d)| json!([i, d])).collect::<Vec<_>>()})
+                            })
+                            .collect();
+                        outs.push(json!({"layout": rs}));
+                    }
+                    Ok(None) => outs.push(json!({"layout": null})),
+                    Err(e) => outs.push(json!({"err": errstr(&e)})),
+                }
             } else if step["ls"].as_bool() == Some(true) {
                 outs.push(json!({"ls": list_dir(&path)}));
             }
         }
+        busy.store(false, std::sync::atomic::Ordering::SeqCst);
         if let Some(d) = db.take() {
             let _ = d.shutdown().await;
         }
